@@ -525,49 +525,617 @@ Proof.
       * intros s [H _]. exact H.
 Qed.
 
+(* clearing the flag; loading the row *)
+Lemma unflag_get s o :
+  get_inst (snd (upd_inst Par o (fun i => i_with_expired i false) s)) Par o = i_with_expired (get_inst s Par o) false.
+Proof.
+  unfold upd_inst, modify. cbv beta iota. cbn [snd].
+  pose proof (get_inst_upd s o (fun i => i_with_expired i false) o) as G. cbv beta in G. rewrite G, Nat.eqb_refl. cbn [andb].
+  destruct (Nat.ltb o (length (heap (cn s Par)))) eqn:L; [reflexivity|].
+  apply Nat.ltb_ge in L. rewrite (get_inst_oob s Par o L). reflexivity.
+Qed.
+
+Lemma jt_unflag X t0 o :
+  hoare (JT X t0) (upd_inst Par o (fun i => i_with_expired i false))
+        (fun _ s => JT X t0 s) (JT X t0).
+Proof.
+  intros s [J Ht].
+  pose proof (jx_upd X o (fun i => i_with_expired i false) (kid_expired false) s) as H.
+  assert (Hpre : JX X s /\
+            (i_expired (i_with_expired (get_inst s Par o) false) = true -> no_vals (i_with_expired (get_inst s Par o) false) = true) /\
+            (alive s Par X o = true -> i_obsolete (i_with_expired (get_inst s Par o) false) = false ->
+             shows (committed s) (i_with_expired (get_inst s Par o) false) = true)).
+  { split; [exact J|]. split; [discriminate|]. intros Ha Hob. apply J; assumption. }
+  specialize (H Hpre). unfold upd_inst, modify in *. cbv beta iota in *. split; [exact H|exact Ht].
+Qed.
+
+Lemma jt_fill0 X t0 o r id :
+  tbl_lookup t0 id = Some r ->
+  hoare (fun s => JT X t0 s /\ i_id (get_inst s Par o) = id /\ i_expired (get_inst s Par o) = false)
+        (select_init Par o r) (fun _ s => JT X t0 s) (JT X t0).
+Proof.
+  intros Hr s ([J Ht] & Hid & Hfl). unfold select_init.
+  pose proof (jx_upd X o (fun i => i_with_vals i (map Some r)) (kid_vals (map Some r)) s) as H.
+  assert (Hpre : JX X s /\
+            (i_expired (i_with_vals (get_inst s Par o) (map Some r)) = true -> no_vals (i_with_vals (get_inst s Par o) (map Some r)) = true) /\
+            (alive s Par X o = true -> i_obsolete (i_with_vals (get_inst s Par o) (map Some r)) = false ->
+             shows (committed s) (i_with_vals (get_inst s Par o) (map Some r)) = true)).
+  { split; [exact J|]. split.
+    - cbn [i_expired i_with_vals]. rewrite Hfl. discriminate.
+    - intros _ _. rewrite Ht. apply (shows_row t0 _ r); [cbn [i_id i_with_vals]; rewrite Hid; exact Hr|reflexivity]. }
+  specialize (H Hpre). unfold upd_inst, modify in *. cbv beta iota in *. split; [exact H|exact Ht].
+Qed.
+
+Lemma jt_select_one X t0 id (P : st -> Prop) :
+  (forall s l, P s -> P (with_log s l)) ->
+  hoare (fun s => JT X t0 s /\ P s) (db_select_one Par id)
+        (fun r s => (JT X t0 s /\ P s) /\ r = tbl_lookup t0 id) (JT X t0).
+Proof.
+  intros HP s [[J Ht] Hp]. unfold db_select_one, bind, stmt_read. cbn [dead]. cbv beta iota. unfold ret. cbn [fst snd].
+  split; [split; [split; [exact J|exact Ht]|apply HP; exact Hp]|]. change (view s Par) with (committed s). rewrite Ht. reflexivity.
+Qed.
+
 (* attribute read *)
 Lemma jt_so_read X t0 o c : keeps (JT X t0) (so_read Par o c).
 Proof.
   unfold so_read.
   eapply hoare_bind with (R := fun i s => JT X t0 s /\ i = get_inst s Par o); [apply hoare_gets; auto|].
   intros i. destruct (nth c (i_vals i) None) as [v|]; [apply hoare_ret; tauto|].
-  eapply hoare_bind with (R := fun _ s => JT X t0 s /\ i_id (get_inst s Par o) = i_id i /\ i_expired (get_inst s Par o) = false \/
-                                           (JT X t0 s /\ (length (heap (cn s Par)) <= o)%nat /\ i = blank_inst 0)).
-  { intros s [[J Ht] ->]. unfold upd_inst, modify. cbv beta iota.
-    destruct (Nat.lt_ge_cases o (length (heap (cn s Par)))) as [L|L].
-    - left.
-      pose proof (jx_upd X o (fun i => i_with_expired i false) (kid_expired false) s) as H.
-      assert (Hpre : JX X s /\
-                (i_expired (i_with_expired (get_inst s Par o) false) = true -> no_vals (i_with_expired (get_inst s Par o) false) = true) /\
-                (alive s Par X o = true -> i_obsolete (i_with_expired (get_inst s Par o) false) = false ->
-                 shows (committed s) (i_with_expired (get_inst s Par o) false) = true)).
-      { split; [exact J|]. split; [discriminate|]. intros Ha Hob. apply J; assumption. }
-      specialize (H Hpre). unfold upd_inst, modify in H. cbv beta iota in H.
-      split; [split; [exact H|exact Ht]|]. rewrite get_inst_upd, Nat.eqb_refl. apply Nat.ltb_lt in L. rewrite L. cbn. auto.
-    - right. rewrite set_nth_oob by exact L.
-      assert (E : with_heap s Par (heap (cn s Par)) = s) by (destruct s as [[] [] ? ? ? ? ? ?]; reflexivity).
-      rewrite E. split; [split; assumption|]. split; [exact L|]. apply get_inst_oob. exact L. }
-  intro. intros s Hs.
-  assert (Hjt : JT X t0 s) by (destruct Hs as [[H _]|[H _]]; exact H).
-  destruct Hjt as [J Ht].
-  unfold bind at 1. unfold db_select_one, bind, stmt_read. cbn [dead].
-  cbv beta iota. change (view s Par) with (committed s). rewrite Ht.
-  set (s1 := with_log s (SSelectOne Par (i_id i) :: log s)).
-  destruct (tbl_lookup t0 (i_id i)) as [r|] eqn:El; unfold ret at 1; cbv beta iota; [|cbn; split; assumption].
-  assert (J1 : JT X t0 s1) by (split; assumption).
-  destruct Hs as [(_ & Hid & Hfl)|(_ & L & Hb)].
-  - pose proof (jt_fill X t0 o r (i_id i) El s1) as H.
-    destruct (Nat.lt_ge_cases o (length (heap (cn s Par)))) as [Lo|Lo].
-    + assert (Hpre : JT X t0 s1 /\ known s1 Par o (i_id i) /\ i_expired (get_inst s1 Par o) = false)
-        by (split; [exact J1|split; [split; [exact Lo|exact Hid]|exact Hfl]]).
-      specialize (H Hpre). unfold bind. destruct (select_init Par o r s1) as [[u|e] s2]; cbn in *; tauto.
-    + unfold bind, select_init, upd_inst, modify. cbv beta iota. cbn [snd fst].
-      change (heap (cn s1 Par)) with (heap (cn s Par)). rewrite set_nth_oob by exact Lo.
-      assert (E : with_heap s1 Par (heap (cn s Par)) = s1) by (unfold s1; destruct s as [[] [] ? ? ? ? ? ?]; reflexivity).
-      rewrite E. cbn. exact J1.
-  - unfold bind, select_init, upd_inst, modify. cbv beta iota. cbn [snd fst].
-    change (heap (cn s1 Par)) with (heap (cn s Par)). rewrite set_nth_oob by exact L.
-    assert (E : with_heap s1 Par (heap (cn s Par)) = s1) by (unfold s1; destruct s as [[] [] ? ? ? ? ? ?]; reflexivity).
-    rewrite E. cbn. exact J1.
+  eapply hoare_bind with (R := fun _ s => JT X t0 s /\ (i_id (get_inst s Par o) = i_id i /\ i_expired (get_inst s Par o) = false)).
+  { intros s [Hjt ->]. pose proof (jt_unflag X t0 o s Hjt) as H. pose proof (unflag_get s o) as G.
+    destruct (upd_inst Par o (fun i => i_with_expired i false) s) as [[u|e] s'] eqn:E; cbn [snd] in *.
+    - split; [exact H|]. rewrite G. split; reflexivity.
+    - exact H. }
+  intro.
+  eapply hoare_bind; [apply (jt_select_one X t0 (i_id i) (fun s => i_id (get_inst s Par o) = i_id i /\ i_expired (get_inst s Par o) = false)); auto|].
+  intros [r|].
+  - intros s [[Hjt [Hid Hfl]] Heq]. symmetry in Heq.
+    pose proof (jt_fill0 X t0 o r (i_id i) Heq s (conj Hjt (conj Hid Hfl))) as H.
+    unfold bind. destruct (select_init Par o r s) as [[u|e] s']; cbn in *; exact H.
+  - intros s [[Hjt _] _]. exact Hjt.
 Qed.
+
+(* sync *)
+Lemma jt_so_sync X t0 o : keeps (JT X t0) (so_sync Par o).
+Proof.
+  unfold so_sync.
+  eapply hoare_bind with (R := fun i s => JT X t0 s /\ i = get_inst s Par o); [apply hoare_gets; auto|].
+  intros i.
+  eapply hoare_bind; [apply (jt_select_one X t0 (i_id i) (fun s => i = get_inst s Par o)); auto|].
+  intros [r|].
+  - intros s [[Hjt Hi] Heq]. symmetry in Heq. subst i.
+    exact (jt_reload_pair X t0 o r s (conj Hjt Heq)).
+  - intros s [[Hjt _] _]. exact Hjt.
+Qed.
+
+(* expire *)
+Lemma jt_so_expire X t0 o : keeps (JT X t0) (so_expire cfg Par o).
+Proof.
+  apply keeps_of_snd. intros s [J Ht]. rewrite so_expire_eq. cbv zeta.
+  destruct (i_expired (get_inst s Par o)) eqn:Ee; [split; assumption|].
+  destruct (del_attrs (i_vals (get_inst s Par o))) as [vals' ok] eqn:Ed.
+  pose proof (del_attrs_le (i_vals (get_inst s Par o))) as Hle. rewrite Ed in Hle. cbn [fst] in Hle.
+  (* first the attributes go *)
+  pose proof (jx_upd X o (fun i => i_with_vals i vals') (kid_vals vals') s) as H1.
+  assert (Hpre1 : JX X s /\
+            (i_expired (i_with_vals (get_inst s Par o) vals') = true -> no_vals (i_with_vals (get_inst s Par o) vals') = true) /\
+            (alive s Par X o = true -> i_obsolete (i_with_vals (get_inst s Par o) vals') = false ->
+             shows (committed s) (i_with_vals (get_inst s Par o) vals') = true)).
+  { split; [exact J|]. split; [cbn [i_expired i_with_vals]; rewrite Ee; discriminate|].
+    intros Ha Hob. eapply shows_le; [| |apply J; [exact Ha|exact Hob]]; [reflexivity|exact Hle]. }
+  specialize (H1 Hpre1). unfold upd_inst, modify in H1. cbv beta iota in H1.
+  set (s1 := with_heap s Par (set_nth o (i_with_vals (get_inst s Par o) vals') (heap (cn s Par)))) in *.
+  destruct ok; [|cbn; split; [exact H1|exact Ht]].
+  (* then the flag is set: nothing is cached any more *)
+  assert (Hnv : forallb (fun v : option val => match v with None => true | Some _ => false end) vals' = true).
+  { pose proof (del_attrs_ok (i_vals (get_inst s Par o))) as H. rewrite Ed in H. apply H. reflexivity. }
+  pose proof (jx_upd X o (fun i => i_with_expired i true) (kid_expired true) s1) as H2.
+  assert (G1 : get_inst s1 Par o = if Nat.ltb o (length (heap (cn s Par))) then i_with_vals (get_inst s Par o) vals' else get_inst s Par o).
+  { unfold s1. pose proof (get_inst_upd s o (fun i => i_with_vals i vals') o) as G. cbv beta in G. rewrite G, Nat.eqb_refl. reflexivity. }
+  assert (Hnv1 : no_vals (get_inst s1 Par o) = true).
+  { rewrite G1. destruct (Nat.ltb o (length (heap (cn s Par)))) eqn:L; [exact Hnv|].
+    apply Nat.ltb_ge in L. rewrite (get_inst_oob s Par o L). reflexivity. }
+  assert (Hpre2 : JX X s1 /\
+            (i_expired (i_with_expired (get_inst s1 Par o) true) = true -> no_vals (i_with_expired (get_inst s1 Par o) true) = true) /\
+            (alive s1 Par X o = true -> i_obsolete (i_with_expired (get_inst s1 Par o) true) = false ->
+             shows (committed s1) (i_with_expired (get_inst s1 Par o) true) = true)).
+  { split; [exact H1|]. split; [intros _; exact Hnv1|]. intros _ _. apply shows_no_vals. exact Hnv1. }
+  specialize (H2 Hpre2). unfold upd_inst, modify in H2. cbv beta iota in H2.
+  set (s2 := with_heap s1 Par (set_nth o (i_with_expired (get_inst s1 Par o) true) (heap (cn s1 Par)))) in *.
+  pose proof (jt_keeps X t0 _ (jx_cache_expire X (i_id (get_inst s Par o))) (db_cache_expire Par _) s2) as H3.
+  assert (Hjt2 : JT X t0 s2) by (split; [exact H2|exact Ht]).
+  specialize (H3 Hjt2). destruct (cache_expire cfg Par (i_id (get_inst s Par o)) s2) as [[u|e] s3]; exact H3.
+Qed.
+
+(* ------------------------------------------------------------------ writes on the parent side *)
+Lemma lookup_update_other id id' c v t : id <> id' -> tbl_lookup (tbl_update id c v t) id' = tbl_lookup t id'.
+Proof.
+  intros H. unfold tbl_update, tbl_lookup. destruct (assoc id (t_rows t)); [|reflexivity]. cbn. apply assoc_set_other. exact H.
+Qed.
+Lemma lookup_update_same id c v t r : tbl_lookup t id = Some r -> tbl_lookup (tbl_update id c v t) id = Some (set_nth c v r).
+Proof. unfold tbl_update, tbl_lookup. intros ->. cbn. apply assoc_set_same. Qed.
+Lemma lookup_delete_other id id' t : id <> id' -> tbl_lookup (tbl_delete id t) id' = tbl_lookup t id'.
+Proof. intros H. unfold tbl_delete, tbl_lookup. cbn. apply assoc_remove_other. exact H. Qed.
+
+Lemma shows_go_set c : forall (vals : list (option val)) (r : row) v,
+  (c < length r)%nat ->
+  (fix go (vals : list (option val)) (r : row) : bool :=
+     match vals, r with
+     | [], _ => true
+     | None :: vs, _ :: rs => go vs rs
+     | Some v :: vs, x :: rs => val_eqb v x && go vs rs
+     | Some _ :: _, [] => false
+     | None :: vs, [] => go vs []
+     end) vals r = true ->
+  (fix go (vals : list (option val)) (r : row) : bool :=
+     match vals, r with
+     | [], _ => true
+     | None :: vs, _ :: rs => go vs rs
+     | Some v :: vs, x :: rs => val_eqb v x && go vs rs
+     | Some _ :: _, [] => false
+     | None :: vs, [] => go vs []
+     end) (set_nth c (Some v) vals) (set_nth c v r) = true.
+Proof.
+  induction c as [|c IH]; intros vals r v Hc H; destruct r as [|x rs]; cbn in Hc; try lia.
+  - destruct vals as [|[w|] vs]; cbn in *; auto.
+    + apply andb_true_iff in H. rewrite val_eqb_refl. tauto.
+    + rewrite val_eqb_refl. exact H.
+  - destruct vals as [|[w|] vs]; cbn in *; auto.
+    + apply andb_true_iff in H. destruct H as [H1 H2]. rewrite H1. apply IH; [lia|exact H2].
+    + apply IH; [lia|exact H].
+Qed.
+
+Lemma shows_set t i r c v :
+  tbl_lookup t (i_id i) = Some r -> (c < length r)%nat -> shows t i = true ->
+  shows (tbl_update (i_id i) c v t) (set_val c v i) = true.
+Proof.
+  intros Hl Hc H. unfold shows in *. cbn [i_id set_val i_with_vals i_vals]. rewrite (lookup_update_same _ c v t r Hl). rewrite Hl in H.
+  apply shows_go_set; assumption.
+Qed.
+
+Lemma shows_insert t i r : shows t i = true -> shows (snd (tbl_insert r t)) i = true.
+Proof.
+  intros H. destruct (tbl_lookup t (i_id i)) as [r'|] eqn:E.
+  - rewrite (shows_same_row t (snd (tbl_insert r t))); [exact H|].
+    unfold tbl_insert, tbl_lookup in *. cbn. rewrite (assoc_app_some _ _ _ _ E), E. reflexivity.
+  - apply shows_no_vals. unfold shows in H. rewrite E in H. exact H.
+Qed.
+
+(* the guards of the history theorem, as propositions *)
+Definition others_blank (s : st) (o : nat) : Prop :=
+  forall o', o' <> o -> alive s Par [] o' = true -> i_obsolete (get_inst s Par o') = false ->
+             i_id (get_inst s Par o') = i_id (get_inst s Par o) -> no_vals (get_inst s Par o') = true.
+
+Lemma with_heap_same s : with_heap s Par (heap (cn s Par)) = s.
+Proof. destruct s as [[] [] ? ? ? ? ? ?]. reflexivity. Qed.
+
+Lemma jx_so_set s o c v :
+  JX [] s -> others_blank s o ->
+  (exists r, tbl_lookup (committed s) (i_id (get_inst s Par o)) = Some r /\ (c < length r)%nat) ->
+  JX [] (snd (so_set Par o c v s)).
+Proof.
+  intros J Hob (r & Hl & Hc). pose proof J as (Hcok & Hexp & Hpf).
+  unfold so_set, bind, gets, db_update, stmt_write. cbv beta iota.
+  destruct (pending s) eqn:Ep; [exact J|]. cbn [fst snd].
+  set (i := get_inst s Par o) in *. set (t1 := tbl_update (i_id i) c v (committed s)).
+  set (s1 := with_committed (with_log s (SUpdate Par (i_id i) c :: log s)) t1).
+  (* the state after the UPDATE and (unless flagged) the caching *)
+  assert (Fin : forall s2, cache_ok s2 Par -> committed s2 = t1 ->
+            (forall o', alive s2 Par [] o' = alive s Par [] o') ->
+            (forall o', (get_inst s2 Par o' = get_inst s Par o' /\ (o' = o -> no_vals i = true)) \/
+                        (o' = o /\ i_expired i = false /\ get_inst s2 Par o' = set_val c v i)) ->
+            JX [] s2).
+  { intros s2 C2 T2 A2 G2. split; [exact C2|]. split.
+    - intros o'. destruct (G2 o') as [[E _]|(_ & Hfl & E)]; rewrite E; [apply Hexp|].
+      cbn [i_expired set_val i_with_vals]. rewrite Hfl. discriminate.
+    - intros o' Ha Hobs. rewrite A2 in Ha. rewrite T2.
+      destruct (G2 o') as [[E Hn]|(-> & Hfl & E)]; rewrite E in *.
+      + destruct (Nat.eq_dec o' o) as [->|Hne]; [apply shows_no_vals; apply Hn; reflexivity|].
+        destruct (Z.eq_dec (i_id (get_inst s Par o')) (i_id i)) as [Eid|Nid].
+        * apply shows_no_vals. apply Hob; auto.
+        * rewrite (shows_same_row (committed s) t1); [apply Hpf; assumption|].
+          apply lookup_update_other. congruence.
+      + apply (shows_set (committed s) i r c v Hl Hc). apply Hpf; [exact Ha|exact Hobs]. }
+  destruct (i_expired i) eqn:Hfl; unfold ret, upd_inst, modify; cbv beta iota; cbn [snd].
+  - apply Fin; auto. intros o'. left. split; [reflexivity|]. intros _. apply Hexp. exact Hfl.
+  - apply Fin.
+    + apply (ok_upd Par o (set_val c v) (kid_set_val c v) s1 Hcok).
+    + reflexivity.
+    + reflexivity.
+    + intros o'. pose proof (get_inst_upd s1 o (set_val c v) o') as G. cbv beta in G.
+      change (get_inst s1 Par o) with i in G. change (heap (cn s1 Par)) with (heap (cn s Par)) in *.
+      destruct (Nat.eqb o' o && Nat.ltb o (length (heap (cn s Par)))) eqn:E.
+      * right. apply andb_true_iff in E. destruct E as [E _]. apply Nat.eqb_eq in E. split; [exact E|]. split; [reflexivity|exact G].
+      * left. split; [exact G|]. intros ->. rewrite Nat.eqb_refl in E. cbn in E. apply Nat.ltb_ge in E.
+        unfold i. rewrite (get_inst_oob s Par o E). reflexivity.
+Qed.
+
+Lemma jx_so_destroy s o :
+  JX [] s -> others_blank s o -> JX [] (snd (so_destroy Par o s)).
+Proof.
+  intros J Hob. pose proof J as (Hcok & Hexp & Hpf).
+  unfold so_destroy, bind, gets, db_delete, stmt_write. cbv beta iota. unfold ret at 1. cbv beta iota.
+  destruct (pending s) eqn:Ep; [exact J|]. cbn [fst snd].
+  set (i := get_inst s Par o) in *. set (t1 := tbl_delete (i_id i) (committed s)).
+  set (s1 := with_committed (with_log s (SDelete Par (i_id i) :: log s)) t1).
+  unfold upd_inst, modify. cbv beta iota. cbn [fst snd].
+  change (get_inst s1 Par o) with i. change (heap (cn s1 Par)) with (heap (cn s Par)).
+  set (s2 := with_heap s1 Par (set_nth o (i_with_obsolete i true) (heap (cn s Par)))).
+  assert (J2 : JX [] s2).
+  { assert (G : forall o', get_inst s2 Par o' = if Nat.eqb o' o && Nat.ltb o (length (heap (cn s Par))) then i_with_obsolete i true else get_inst s Par o').
+    { intros o'. pose proof (get_inst_upd s1 o (fun i => i_with_obsolete i true) o') as G. cbv beta in G. exact G. }
+    split; [apply (ok_upd Par o (fun i => i_with_obsolete i true) (kid_obsolete true) s1 Hcok)|]. split.
+    - intros o'. rewrite G. destruct (Nat.eqb o' o && Nat.ltb o (length (heap (cn s Par)))); [|apply Hexp].
+      cbn [i_expired i_with_obsolete no_vals i_vals]. apply Hexp.
+    - intros o' Ha Hobs. change (alive s2 Par [] o') with (alive s Par [] o') in Ha. change (committed s2) with t1.
+      rewrite G in *. destruct (Nat.eqb o' o && Nat.ltb o (length (heap (cn s Par)))) eqn:E; [cbn in Hobs; discriminate|].
+      destruct (Nat.eq_dec o' o) as [->|Hne].
+      + (* the destroyed handle lies outside the heap: a blank instance *)
+        rewrite Nat.eqb_refl in E. cbn in E. apply Nat.ltb_ge in E. apply shows_no_vals. rewrite (get_inst_oob s Par o E). reflexivity.
+      + destruct (Z.eq_dec (i_id (get_inst s Par o')) (i_id i)) as [Eid|Nid].
+        * apply shows_no_vals. apply Hob; auto.
+        * rewrite (shows_same_row (committed s) t1); [apply Hpf; assumption|]. apply lookup_delete_other. congruence. }
+  pose proof (jx_cache_purge [] (i_id i) s2 J2) as H. destruct (cache_purge Par (i_id i) s2) as [[u|e] s3]; exact H.
+Qed.
+
+(* cache_created with the new instance among the roots *)
+Lemma jx_cache_created X id o :
+  hoare (fun s => JX X s /\ known s Par o id /\ In o X) (cache_created cfg Par id o) (fun _ s => JX X s /\ known s Par o id) (JX X).
+Proof.
+  unfold cache_created.
+  assert (Thread : forall A (m : M A), keeps (JX X) m -> pres Rext m ->
+            hoare (fun s => JX X s /\ known s Par o id /\ In o X) m (fun _ s => JX X s /\ known s Par o id /\ In o X) (JX X)).
+  { intros A m Hk He s (J & Hkn & Hx). specialize (Hk s J). specialize (He s). destruct (m s) as [[a|e] s']; cbn in *; auto.
+    split; [exact Hk|]. split; [eapply Rext_known; eauto|exact Hx]. }
+  eapply hoare_bind; [apply Thread; [apply jx_ensure_factory|apply fp_ensure_factory; [apply Rext_refl|apply Rext_trans|apply ext_cch]]|intro].
+  destruct (doCache cfg).
+  - eapply hoare_bind; [apply Thread; [apply jx_cull_tick|apply fp_cull_tick; [apply Rext_refl|apply Rext_trans|apply ext_cch]]|intro].
+    intros s (J & Hk & Hx). unfold bind, gets, set_cch, modify. cbv beta iota.
+    assert (Ha : alive s Par X o = true) by (apply alive_iff; auto).
+    split; [|exact Hk]. apply jx_set_cch; auto.
+    + intros k o' Hin. rewrite entries_c_with in Hin. apply in_app_or in Hin. destruct Hin as [H|H].
+      * destruct (In_assoc_set _ _ _ _ H) as [H1|H1]; [left; unfold entries; apply in_or_app; auto|]. inversion H1; subst. right. exact Hk.
+      * left. unfold entries. apply in_or_app. auto.
+    + intros e He. cbn in He. destruct (In_assoc_set _ _ _ _ He) as [H1|H1]; [auto|]. subst e. right. exact Ha.
+  - intros s (J & Hk & Hx). unfold bind, gets, set_cch, modify. cbv beta iota. split; [|exact Hk]. apply jx_set_cch; auto.
+    intros k o' Hin. rewrite entries_c_with in Hin. apply in_app_or in Hin. destruct Hin as [H|H].
+    + left. unfold entries. apply in_or_app. auto.
+    + destruct (In_assoc_set _ _ _ _ H) as [H1|H1]; [left; unfold entries; apply in_or_app; auto|]. inversion H1; subst. right. exact Hk.
+Qed.
+
+Lemma JX_root_held s o : JX [o] s -> JX [] (with_slots s (slots s ++ [Some (Par, o)])).
+Proof.
+  intros J. eapply JX_transfer; [exact J|apply J|reflexivity|apply J|].
+  intros o' Ha _. left. split; [|reflexivity]. apply alive_iff in Ha. apply alive_iff. cbn in Ha.
+  destruct Ha as [[]|[A|A]]; [|right; right; exact A].
+  unfold slot_refs in A. cbn in A. rewrite flat_map_app in A. apply in_app_or in A. destruct A as [A|A]; [right; left; exact A|].
+  cbn in A. destruct A as [<-|[]]. left. left. reflexivity.
+Qed.
+
+Lemma JX_none_held X s : JX X s -> JX [] (with_slots s (slots s ++ [None])).
+Proof.
+  intros J. eapply JX_transfer; [exact J|apply J|reflexivity|apply J|].
+  intros o' Ha _. left. split; [|reflexivity]. apply alive_iff in Ha. apply alive_iff. cbn in Ha.
+  destruct Ha as [[]|[A|A]]; [|right; right; exact A].
+  unfold slot_refs in A. cbn in A. rewrite flat_map_app in A. apply in_app_or in A. destruct A as [A|A]; [right; left; exact A|destruct A].
+Qed.
+
+(* create *)
+Lemma jx_so_create s a b :
+  JX [] s -> tbl_ok (committed s) ->
+  match so_create cfg Par a b s with
+  | (Ret o, s') => JX [o] s'
+  | (Raise _, s') => JX [] s'
+  end.
+Proof.
+  intros J Hok. pose proof J as (Hcok & Hexp & Hpf).
+  unfold so_create. unfold bind at 1. unfold db_insert, stmt_write. cbv beta iota.
+  destruct (pending s) eqn:Ep; [exact J|]. cbn [fst snd tbl_insert].
+  set (id := t_next (committed s)).
+  set (t1 := {| t_rows := t_rows (committed s) ++ [(id, [a; b])]; t_next := id + 1 |}).
+  set (s1 := with_committed (with_log s (SInsert Par :: log s)) t1).
+  assert (Hl1 : tbl_lookup t1 id = Some [a; b]).
+  { unfold tbl_lookup, t1. cbn. rewrite assoc_app_none; [cbn; rewrite Z.eqb_refl; reflexivity|].
+    destruct (assoc id (t_rows (committed s))) as [r|] eqn:E; [|reflexivity].
+    apply assoc_In in E. destruct Hok as [Hlt _]. specialize (Hlt _ _ E). unfold id in Hlt. lia. }
+  assert (J1 : JT [] t1 s1).
+  { split; [|reflexivity]. split; [exact Hcok|]. split; [exact Hexp|].
+    intros o Ha Hobs. change (committed s1) with (snd (tbl_insert [a; b] (committed s))). apply shows_insert. apply Hpf; assumption. }
+  (* the rest of the constructor, from the state after the INSERT *)
+  set (rest := (o <- new_inst Par {| i_id := id; i_vals := [Some a; Some b]; i_expired := false; i_obsolete := false |};;
+                cache_created cfg Par id o;;;
+                r <- db_select_one Par id;;
+                match r with Some r0 => select_init Par o r0;;; ret o | None => raise ENotFound end)).
+  assert (H : hoare (JT [] t1) rest (fun o s' => JT [o] t1 s') (JT [] t1)).
+  { unfold rest.
+    eapply hoare_bind with (R := fun o s' => JT [o] t1 s' /\ known s' Par o id /\ i_expired (get_inst s' Par o) = false).
+    { intros s0 [J0 Ht0].
+      pose proof (jx_new [] {| i_id := id; i_vals := [Some a; Some b]; i_expired := false; i_obsolete := false |} s0) as Hn.
+      assert (Hpre : JX [] s0 /\ shows (committed s0) {| i_id := id; i_vals := [Some a; Some b]; i_expired := false; i_obsolete := false |} = true /\
+                     (i_expired {| i_id := id; i_vals := [Some a; Some b]; i_expired := false; i_obsolete := false |} = true ->
+                      no_vals {| i_id := id; i_vals := [Some a; Some b]; i_expired := false; i_obsolete := false |} = true)).
+      { split; [exact J0|]. split; [|discriminate]. rewrite Ht0. apply (shows_row t1 _ [a; b]); [exact Hl1|reflexivity]. }
+      specialize (Hn Hpre). pose proof (db_new Par {| i_id := id; i_vals := [Some a; Some b]; i_expired := false; i_obsolete := false |} s0) as [D _].
+      destruct (new_inst Par _ s0) as [[o|e] s'] eqn:En; cbn in *.
+      - destruct Hn as (J' & Hk & Hg). split; [split; [exact J'|congruence]|]. split; [exact Hk|]. rewrite Hg. reflexivity.
+      - split; [exact Hn|congruence]. }
+    intros o.
+    assert (Down : forall s0, JT [o] t1 s0 -> JT [] t1 s0).
+    { intros s0 [J0 Ht0]. split; [|exact Ht0]. eapply JX_less; [|exact J0]. intros x []. }
+    eapply hoare_bind with (R := fun _ s' => JT [o] t1 s' /\ i_id (get_inst s' Par o) = id /\ i_expired (get_inst s' Par o) = false).
+    { intros s0 ([J0 Ht0] & Hk & Hfl).
+      pose proof (jx_cache_created [o] id o s0) as Hc.
+      assert (Hpre : JX [o] s0 /\ known s0 Par o id /\ In o [o]) by (split; [exact J0|split; [exact Hk|left; reflexivity]]).
+      specialize (Hc Hpre). pose proof (db_cache_created Par id o s0) as [D _].
+      (* the cache bookkeeping does not touch instances *)
+      assert (Hg : get_inst (snd (cache_created cfg Par id o s0)) Par o = get_inst s0 Par o).
+      { pose proof (fp_cache_created cfg Par (fun x y => heap (cn y Par) = heap (cn x Par))
+                      (fun x => eq_refl) (fun x y z H1 H2 => eq_trans H2 H1)
+                      (fun c x => eq_refl) id o s0) as Hh. cbv beta in Hh. unfold get_inst. rewrite Hh. reflexivity. }
+      destruct (cache_created cfg Par id o s0) as [[u|e] s'] eqn:Ec; cbn [snd] in *.
+      - destruct Hc as [J' Hk']. split; [split; [exact J'|congruence]|]. rewrite Hg. destruct Hk as [_ Hid]. split; [exact Hid|exact Hfl].
+      - apply Down. split; [exact Hc|congruence]. }
+    intro.
+    eapply hoare_bind with (R := fun r s0 => (JT [o] t1 s0 /\ (i_id (get_inst s0 Par o) = id /\ i_expired (get_inst s0 Par o) = false)) /\ r = tbl_lookup t1 id).
+    { eapply hoare_conseq; [apply (jt_select_one [o] t1 id (fun s0 => i_id (get_inst s0 Par o) = id /\ i_expired (get_inst s0 Par o) = false)); auto|auto|auto|apply Down]. }
+    intros [r0|].
+    - intros s0 [[Hjt [Hid Hfl]] Heq]. symmetry in Heq.
+      pose proof (jt_fill0 [o] t1 o r0 id Heq s0 (conj Hjt (conj Hid Hfl))) as Hf.
+      unfold bind. destruct (select_init Par o r0 s0) as [[u|e] s']; cbn in *; [exact Hf|apply Down; exact Hf].
+    - intros s0 [[Hjt _] _]. cbn. apply Down. exact Hjt. }
+  specialize (H s1 J1).
+  match goal with |- context [rest ?x] => change x with s1 end.
+  destruct (rest s1) as [[o|e] s']; exact (proj1 H).
+Qed.
+
+(* ------------------------------------------------------------------ one operation on the parent side *)
+Lemma others_blankb_ok s o : others_blankb s o = true -> others_blank s o.
+Proof.
+  unfold others_blankb. rewrite forallb_seq_nat. intros H o' Hne Ha Hob Hid.
+  destruct (Nat.lt_ge_cases o' (length (heap (par s)))) as [L|L].
+  - specialize (H o' L). unfold reachable_obj in H. rewrite Ha, Hob, Hid in H. apply Nat.eqb_neq in Hne. rewrite Hne in H.
+    rewrite Z.eqb_refl in H. cbn in H. exact H.
+  - rewrite (get_inst_oob s Par o' L). reflexivity.
+Qed.
+
+Lemma JX_held_in l s o : JX l s -> In o l -> JX [] (with_slots s (slots s ++ [Some (Par, o)])).
+Proof.
+  intros J Hin. eapply JX_transfer; [exact J|apply J|reflexivity|apply J|].
+  intros o' Ha _. left. split; [|reflexivity]. apply alive_iff in Ha. apply alive_iff. cbn in Ha.
+  destruct Ha as [[]|[A|A]]; [|right; right; exact A].
+  unfold slot_refs in A. cbn in A. rewrite flat_map_app in A. apply in_app_or in A. destruct A as [A|A]; [right; left; exact A|].
+  cbn in A. destruct A as [<-|[]]. left. exact Hin.
+Qed.
+
+Lemma JX_log X s l : JX X s -> JX X (with_log s l).
+Proof. intros J. exact J. Qed.
+
+Lemma hold_state o s : hold Par o s = (Ret (RObj (i_id (get_inst s Par o)) (slot_of s Par o)), with_slots s (slots s ++ [Some (Par, o)])).
+Proof. reflexivity. Qed.
+
+Lemma wrapper_par_state via m s : snd (wrapper_access cfg Par via m s) = s.
+Proof. unfold wrapper_access. destruct via; [|reflexivity]. unfold bind, gets. cbn. destruct (m && negb (wrapOk cfg)); reflexivity. Qed.
+
+Lemma jx_run_op_par s o :
+  JX [] s -> tbl_ok (committed s) -> orm_op o = true -> op_side s o = Some Par -> step_ok cfg s o = true ->
+  JX [] (snd (run_op cfg o s)).
+Proof.
+  intros J Hok Ho Hs Hg. set (t0 := committed s). assert (Jt : JT [] t0 s) by (split; [exact J|reflexivity]).
+  destruct o; cbn in Ho, Hs; try discriminate; cbn [run_op].
+  - (* create *) inversion Hs; subst sd. unfold hold_or_none, bind.
+    pose proof (wrapper_par_state via false s) as Ew.
+    destruct (wrapper_access cfg Par via false s) as [[u|e] s0]; cbn in Ew; subst s0.
+    + pose proof (jx_so_create s a b J Hok) as H. destruct (so_create cfg Par a b s) as [[o|e] s'].
+      * rewrite hold_state. cbn [snd]. apply JX_root_held. exact H.
+      * cbn [snd]. eapply JX_none_held. exact H.
+    + cbn [snd]. eapply JX_none_held. exact J.
+  - (* get *) inversion Hs; subst sd. unfold hold_or_none, bind.
+    pose proof (wrapper_par_state via true s) as Ew.
+    destruct (wrapper_access cfg Par via true s) as [[u|e] s0]; cbn in Ew; subst s0.
+    + assert (Hn : forall r, (None : option row) = Some r -> tbl_lookup t0 id = Some r) by discriminate.
+      pose proof (jt_so_get [] t0 id None Hn s Jt) as H.
+      destruct (so_get cfg Par id None [] s) as [[o|e] s'].
+      * rewrite hold_state. cbn [snd]. apply JX_root_held. apply H.
+      * cbn [snd]. eapply JX_none_held. apply H.
+    + cbn [snd]. eapply JX_none_held. exact J.
+  - (* select *) inversion Hs; subst sd.
+    assert (Body : hoare (JT [] t0)
+              (wrapper_access cfg Par via true;;;
+               t <- stmt_read Par (SSelect Par);;
+               objs <- select_rows cfg Par (t_rows t) [];;
+               s1 <- gets (fun s1 => s1);;
+               (let out := map (fun o => (i_id (get_inst s1 Par o), slot_of s1 Par o)) objs in
+                match keep with
+                | Some n => push_slot match nth_error objs n with Some o => Some (Par, o) | None => None end;;; ret (RObjs out)
+                | None => ret (RObjs out)
+                end))
+              (fun _ s' => JX [] s') (fun s' => JX [] s')).
+    { eapply hoare_bind with (R := fun _ s' => JT [] t0 s').
+      { intros s0 H0. pose proof (wrapper_par_state via true s0) as Ew.
+        destruct (wrapper_access cfg Par via true s0) as [[u|e] s1]; cbn in Ew; subst s1; [exact H0|apply H0]. }
+      intro. eapply hoare_bind with (R := fun t s' => JT [] t0 s' /\ t = t0).
+      { intros s0 [J0 Ht0]. unfold stmt_read. cbn. split; [split; assumption|exact Ht0]. }
+      intros t. eapply hoare_bind with (R := fun l s' => JT l t0 s').
+      { intros s0 [H0 ->].
+        assert (Hrows : forall id r, In (id, r) (t_rows t0) -> tbl_lookup t0 id = Some r)
+          by (intros id r Hin; unfold tbl_lookup; apply NoDup_keys_assoc; [apply Hok|exact Hin]).
+        pose proof (jt_select_rows t0 (t_rows t0) [] Hrows s0 H0) as Hh.
+        destruct (select_rows cfg Par (t_rows t0) [] s0) as [[l|e] s']; [exact Hh|exact (proj1 Hh)]. }
+      intros objs. eapply hoare_bind with (R := fun _ s' => JT objs t0 s'); [apply hoare_gets; auto|].
+      intros s1. cbv zeta. destruct keep as [n|].
+      - eapply hoare_bind with (R := fun _ s' => JX [] s'); [|intro; apply hoare_ret; auto].
+        intros s0 [J0 _]. unfold push_slot, modify. cbv beta iota.
+        destruct (nth_error objs n) as [o|] eqn:En.
+        + apply (JX_held_in objs s0 o J0). eapply nth_error_In. exact En.
+        + eapply JX_none_held. exact J0.
+      - apply hoare_ret. intros s0 [J0 _]. eapply JX_less; [|exact J0]. intros x []. }
+    unfold or_empty_slot. specialize (Body s Jt).
+    match goal with |- context [or_empty_slot] => idtac | _ => idtac end.
+    match type of Body with match ?m s with _ => _ end => destruct (m s) as [[a|e] s'] end; cbn [snd].
+    + exact Body.
+    + destruct keep; [eapply JX_none_held; exact Body|exact Body].
+  - (* count *) inversion Hs; subst sd. unfold bind, stmt_read. cbn. exact J.
+  - (* read *) unfold handle, bind, gets. cbv beta iota. destruct (nth h (slots s) None) as [[sd x]|] eqn:E; [|discriminate].
+    inversion Hs; subst sd. unfold ret at 1. cbv beta iota. cbn [fst snd].
+    pose proof (jt_so_read [] t0 x c s Jt) as H. destruct (so_read Par x c s) as [[v|e] s']; cbn; apply H.
+  - (* assignment *) unfold handle, bind, gets. cbv beta iota. destruct (nth h (slots s) None) as [[sd x]|] eqn:E; [|discriminate].
+    inversion Hs; subst sd. unfold ret at 1. cbv beta iota. cbn [fst snd].
+    cbn [step_ok] in Hg. rewrite E in Hg.
+    destruct (pending s) eqn:Ep.
+    + (* refused: the transaction holds the lock *)
+      assert (Es : snd (so_set Par x c v s) = with_log s (SUpdate Par (i_id (get_inst s Par x)) c :: log s)).
+      { unfold so_set, bind, gets, db_update, stmt_write. cbv beta iota. rewrite Ep. reflexivity. }
+      destruct (so_set Par x c v s) as [[u|e] s'] eqn:Eq; cbn [snd] in *; subst s'; exact J.
+    + apply andb_true_iff in Hg. destruct Hg as [Hg1 Hg2].
+      destruct (tbl_lookup (committed s) (i_id (get_inst s Par x))) as [r|] eqn:El; [|discriminate].
+      apply Nat.ltb_lt in Hg2.
+      pose proof (jx_so_set s x c v J (others_blankb_ok s x Hg1) (ex_intro _ r (conj El Hg2))) as H.
+      destruct (so_set Par x c v s) as [[u|e] s']; cbn; exact H.
+  - (* destroySelf *) unfold handle, bind, gets. cbv beta iota. destruct (nth h (slots s) None) as [[sd x]|] eqn:E; [|discriminate].
+    inversion Hs; subst sd. unfold ret at 1. cbv beta iota. cbn [fst snd].
+    cbn [step_ok] in Hg. rewrite E in Hg.
+    destruct (pending s) eqn:Ep.
+    + assert (Es : snd (so_destroy Par x s) = with_log s (SDelete Par (i_id (get_inst s Par x)) :: log s)).
+      { unfold so_destroy, bind, gets, db_delete, stmt_write, ret. cbv beta iota. rewrite Ep. reflexivity. }
+      destruct (so_destroy Par x s) as [[u|e] s'] eqn:Eq; cbn [snd] in *; subst s'; exact J.
+    + pose proof (jx_so_destroy s x J (others_blankb_ok s x Hg)) as H.
+      destruct (so_destroy Par x s) as [[u|e] s']; cbn; exact H.
+  - (* expire *) unfold handle, bind, gets. cbv beta iota. destruct (nth h (slots s) None) as [[sd x]|] eqn:E; [|discriminate].
+    inversion Hs; subst sd. unfold ret at 1. cbv beta iota. cbn [fst snd].
+    pose proof (jt_so_expire [] t0 x s Jt) as H. destruct (so_expire cfg Par x s) as [[v|e] s']; cbn; apply H.
+  - (* sync *) unfold handle, bind, gets. cbv beta iota. destruct (nth h (slots s) None) as [[sd x]|] eqn:E; [|discriminate].
+    inversion Hs; subst sd. unfold ret at 1. cbv beta iota. cbn [fst snd].
+    pose proof (jt_so_sync [] t0 x s Jt) as H. destruct (so_sync Par x s) as [[v|e] s']; cbn; apply H.
+  - (* drop *) unfold bind, modify, ret. cbn [fst snd].
+    eapply JX_transfer; [exact J|apply J|reflexivity|apply J|].
+    intros o' Ha _. left. split; [|reflexivity]. apply alive_iff in Ha. apply alive_iff. cbn in Ha.
+    destruct Ha as [[]|[A|A]]; [|right; right; exact A]. right. left.
+    unfold slot_refs in *. cbn in A. apply in_flat_map in A. destruct A as [y [Y1 Y2]]. apply in_flat_map. exists y. split; [|exact Y2].
+    clear -Y1 Y2. revert h Y1. generalize (slots s) as l. induction l as [|z l IH]; intros [|h]; cbn; intros H; auto.
+    + destruct H as [<-|H]; [destruct Y2|auto].
+    + destruct H as [H|H]; [auto|right; eapply IH; eauto].
+  - (* cull *) inversion Hs; subst sd. unfold bind, gets. cbv beta iota.
+    destruct (doCache cfg && c_present (cch s Par)); unfold ret; cbn [fst snd]; [|exact J].
+    pose proof (jx_cull [] [] s J) as H. destruct (cull cfg Par [] s) as [[u|e] s']; cbn; exact H.
+Qed.
+
+(* ------------------------------------------------------------------ the other kinds of steps *)
+Lemma slot_refs_side s : slot_refs s Par = flat_map (fun x => match x with Some o => [o] | None => [] end) (side_slots s Par).
+Proof.
+  unfold slot_refs, side_slots. induction (slots s) as [|x l IH]; [reflexivity|].
+  cbn [flat_map map]. rewrite IH. destruct x as [[[] o]|]; reflexivity.
+Qed.
+
+Lemma JX_frame s s' k :
+  par s' = par s -> committed s' = committed s -> side_slots s' Par = side_slots s Par ++ repeat None k ->
+  JX [] s -> JX [] s'.
+Proof.
+  intros Hp Ht Hsl J.
+  assert (G : forall o, get_inst s' Par o = get_inst s Par o) by (intros o; unfold get_inst; cbn; rewrite Hp; reflexivity).
+  eapply JX_transfer; [exact J| |exact Ht| |].
+  - intros k0 o Hin. unfold cch, known, get_inst in *. cbn in *. rewrite Hp in *. apply J. exact Hin.
+  - intros o. rewrite G. apply J.
+  - intros o Ha _. left. split; [|apply G]. apply alive_iff in Ha. apply alive_iff. cbn in Ha.
+    destruct Ha as [[]|[A|A]].
+    + right. left. rewrite slot_refs_side in *. rewrite Hsl, flat_map_app in A. apply in_app_or in A. destruct A as [A|A]; [exact A|].
+      exfalso. clear -A. induction k; cbn in A; auto.
+    + right. right. unfold cch in *. cbn in *. rewrite Hp in A. exact A.
+Qed.
+
+(* expire() keeps "flagged means nothing cached", whatever else is true *)
+Lemma exp_so_expire o s : exp_ok s -> exp_ok (snd (so_expire cfg Par o s)).
+Proof.
+  intros He. rewrite so_expire_eq. cbv zeta.
+  destruct (i_expired (get_inst s Par o)) eqn:Ee; [exact He|].
+  destruct (del_attrs (i_vals (get_inst s Par o))) as [vals' ok] eqn:Ed.
+  set (s1 := with_heap s Par (set_nth o (i_with_vals (get_inst s Par o) vals') (heap (cn s Par)))).
+  assert (G1 : forall o', get_inst s1 Par o' = if Nat.eqb o' o && Nat.ltb o (length (heap (cn s Par))) then i_with_vals (get_inst s Par o) vals' else get_inst s Par o').
+  { intros o'. unfold s1. pose proof (get_inst_upd s o (fun i => i_with_vals i vals') o') as G. cbv beta in G. exact G. }
+  assert (E1 : exp_ok s1).
+  { intros o'. rewrite G1. destruct (Nat.eqb o' o && Nat.ltb o (length (heap (cn s Par)))); [|apply He].
+    cbn [i_expired i_with_vals]. rewrite Ee. discriminate. }
+  destruct ok; [|exact E1].
+  assert (Hnv : forallb (fun v : option val => match v with None => true | Some _ => false end) vals' = true).
+  { pose proof (del_attrs_ok (i_vals (get_inst s Par o))) as H. rewrite Ed in H. apply H. reflexivity. }
+  set (s2 := with_heap s1 Par (set_nth o (i_with_expired (get_inst s1 Par o) true) (heap (cn s1 Par)))).
+  assert (E2 : exp_ok s2).
+  { intros o'. unfold s2. pose proof (get_inst_upd s1 o (fun i => i_with_expired i true) o') as G. cbv beta in G. rewrite G.
+    destruct (Nat.eqb o' o && Nat.ltb o (length (heap (cn s1 Par)))) eqn:E; [|apply E1].
+    intros _. cbn [no_vals i_vals i_with_expired]. rewrite G1, Nat.eqb_refl. cbn [andb].
+    apply andb_true_iff in E. destruct E as [_ E]. change (heap (cn s1 Par)) with (set_nth o (i_with_vals (get_inst s Par o) vals') (heap (cn s Par))) in E.
+    rewrite length_set_nth in E. rewrite E. exact Hnv. }
+  rewrite cache_expire_eq. cbv zeta. destruct (negb (doCache cfg) || negb (c_present (cch s2 Par))); exact E2.
+Qed.
+
+Lemma exp_expire_ids ids : forall s, exp_ok s -> exp_ok (snd (expire_ids cfg Par ids s)).
+Proof.
+  induction ids as [|id rest IH]; intros s He; [exact He|]. cbn [expire_ids]. unfold bind at 1. unfold gets at 1. cbv beta iota.
+  destruct (try_get cfg s Par id) as [o|].
+  - unfold bind at 1. pose proof (exp_so_expire o s He) as H. destruct (so_expire cfg Par o s) as [[u|e] s1]; cbn [snd] in *; [apply IH; exact H|exact H].
+  - unfold bind at 1. cbn. apply IH. exact He.
+Qed.
+
+Lemma exp_commit close s : exp_ok s -> exp_ok (snd (step cfg s (OCommit close))).
+Proof.
+  intros He. unfold step. cbn [run_op]. rewrite snd_bind_ret. unfold txn_commit, bind, gets. cbv beta iota.
+  destruct (tobs (with_log s [])); [exact He|]. unfold modify at 1. cbv beta iota.
+  set (s1 := low_commit (with_log s [])).
+  pose proof (exp_expire_ids (all_ids cfg s1 Txn ++ deleted s1) s1 He) as H.
+  destruct (expire_ids cfg Par (all_ids cfg s1 Txn ++ deleted s1) s1) as [[u|e] s2]; cbn [snd] in *; [|exact H].
+  destruct close; exact H.
+Qed.
+
+Definition K (s : st) : Prop :=
+  cache_ok s Par /\ cache_ok s Txn /\ db_ok s /\ exp_ok s /\ PF [] s.
+
+Lemma K_init : K init.
+Proof.
+  split; [apply cache_ok_init|]. split; [apply cache_ok_init|]. split; [apply db_ok_init|]. split.
+  - intros o _. unfold get_inst. cbn. destruct o; reflexivity.
+  - intros o Ha. apply alive_iff in Ha. cbn in Ha. destruct Ha as [[]|[[]|[]]].
+Qed.
+
+Lemma K_step s o : K s -> step_ok cfg s o = true -> K (snd (step cfg s o)).
+Proof.
+  intros (C1 & C2 & D & E & P) Hg.
+  destruct (step_cache_ok cfg s o C1 C2) as [C1' C2']. pose proof (step_db_ok cfg s o D) as D'.
+  split; [exact C1'|]. split; [exact C2'|]. split; [exact D'|].
+  assert (J : JX [] s) by (split; [exact C1|split; [exact E|exact P]]).
+  assert (Goal : JX [] (snd (step cfg s o))); [|destruct Goal as (_ & A & B); split; assumption].
+  destruct (orm_op o) eqn:Ho.
+  - unfold step. set (s0 := with_log s []). assert (J0 : JX [] s0) by exact J.
+    assert (Hg0 : step_ok cfg s0 o = true) by exact Hg.
+    destruct (op_side s0 o) as [[|]|] eqn:Hs.
+    + apply jx_run_op_par; auto. exact (proj1 D).
+    + pose proof (frame_run_op cfg Txn o s0 Ho Hs) as (F1 & (k & F2) & F3 & _).
+      eapply (JX_frame s0 _ k); [exact F1|apply F3; reflexivity|exact F2|exact J0].
+    + (* an empty handle *)
+      destruct o; cbn in Ho, Hs; try discriminate; cbn [run_op]; unfold handle, bind, gets, modify, ret, raise; cbv beta iota;
+        destruct (nth h (slots s0) None) as [x|] eqn:En;
+        try (change (slots s0) with (slots s) in En; rewrite En in Hs; discriminate Hs); cbn [fst snd]; try exact J0.
+      (* drop of an empty slot *)
+      assert (Es : set_nth h None (slots s0) = slots s0).
+      { clear -En. revert h En. generalize (slots s0) as l. induction l as [|z l IH]; intros [|h]; cbn; intros H; auto; [subst; reflexivity|f_equal; apply IH; exact H]. }
+      rewrite Es. destruct s0; exact J0.
+  - destruct o; cbn in Ho; try discriminate.
+    + (* commit *)
+      cbn [step_ok] in Hg. destruct (tobs s) eqn:Ht.
+      * unfold step. cbn [run_op]. rewrite snd_bind_ret. unfold txn_commit, bind, gets. cbv beta iota. change (tobs (with_log s [])) with (tobs s). rewrite Ht. exact J.
+      * cbn in Hg. destruct (commit_partial cfg s close C1 Ht (proj2 (par_fresh_PF s) P) Hg) as (s' & Es & _ & _ & _ & _ & _ & Hf).
+        split; [exact C1'|]. split; [apply exp_commit; exact E|]. rewrite Es. cbn [snd]. apply par_fresh_PF. exact Hf.
+    + (* rollback: a transaction-side step *)
+      pose proof (frame_step_txn cfg s ORollback eq_refl eq_refl) as (F1 & (k & F2) & F3 & _).
+      eapply (JX_frame s _ k); [exact F1|apply F3; reflexivity|exact F2|exact J].
+    + pose proof (frame_step_txn cfg s OBegin eq_refl eq_refl) as (F1 & (k & F2) & F3 & _).
+      eapply (JX_frame s _ k); [exact F1|apply F3; reflexivity|exact F2|exact J].
+Qed.
+
+Lemma K_run ops : forall s, K s -> hist_ok cfg s ops = true -> K (run cfg s ops).
+Proof.
+  induction ops as [|o ops IH]; intros s Hk Hh; cbn in *; [exact Hk|].
+  apply andb_true_iff in Hh. destruct Hh as [H1 H2]. apply IH; [apply K_step; assumption|exact H2].
+Qed.
+
+Theorem fresh_history ops : hist_ok cfg init ops = true -> par_fresh (run cfg init ops) = true.
+Proof. intros H. apply par_fresh_PF. apply (K_run ops init K_init H). Qed.
 End Fresh.
